@@ -1,6 +1,7 @@
 """C09: unrolling equals iterated execution (tx.unroll, tx.sequential_unroll)."""
 import itertools
 import json
+import os
 
 import lib
 from lib import cs, csl, cb, ccirc, cl, cnat, cty
@@ -16,7 +17,7 @@ RULE = ("unroll: random lint-clean DAGs (1..4 inputs, 1..6 gates of all eight ty
         "unknown state io, blackboxes) and name-stress circuits; non-trivial = at least one gate and n >= 1; distinct = canonical input hash")
 EXPLANATION = ("models of unroll / sequential_unroll through the API model compared with the returned graph and io map; oracle simulates the "
                "sequential machine step by step for every valuation of the free inputs of the unrolled circuit")
-SHARD = 12
+SHARD = 8
 HASHSEEDS = {"quick": [0, 1], "thorough": [0, 1]}
 MAX_FREE = {"quick": 8, "thorough": 10}
 
@@ -176,6 +177,8 @@ def gen_seq_flags(rng, tier):
 
 def generate(rng, tier):
     nu, na, ns, nf = (90, 3, 60, 2) if tier == "quick" else (240, 8, 150, 5)
+    sc = float(os.environ.get("VERIF_SCALE", "1"))      # <1 only for mutant trials on a loaded machine
+    nu, na, ns, nf = max(8, int(nu * sc)), max(1, int(na * sc)), max(8, int(ns * sc)), max(1, int(nf * sc))
     out = [gen_unroll(rng, tier) for _ in range(nu)]
     for _ in range(na):
         out += gen_all_pairings(rng, tier)
